@@ -1,17 +1,1 @@
-(* GENERATED by harness/gen_lif.py from the Python AST of the paper scripts — do not edit *)
-From Coq Require Import Reals.
-Open Scope R_scope.
-
-Definition advance (tau r v_leak v_threshold v i_input delta_t : R) : R :=
-  (((v_leak + (r * i_input)) * (1 - (exp ((- delta_t) / tau)))) + (v * (exp ((- delta_t) / tau)))).
-
-(* None = math.inf *)
-Definition next_spike (tau r v_leak v_threshold v i_input : R) : option R :=
-  (if (if (Req_EM_T ((v - v_leak) - (r * i_input)) 0) then true else false) then None else (if (if (Rgt_dec (((v_threshold - v_leak) - (r * i_input)) / ((v - v_leak) - (r * i_input))) 0) then true else false) then (if (if (Rge_dec (((- 1) * tau) * (ln (((v_threshold - v_leak) - (r * i_input)) / ((v - v_leak) - (r * i_input))))) 0) then true else false) then (Some (((- 1) * tau) * (ln (((v_threshold - v_leak) - (r * i_input)) / ((v - v_leak) - (r * i_input)))))) else None) else None)).
-
-Definition reset (tau r v_leak v_threshold v : R) : R :=
-  (v - v_threshold).
-
-(* one element of CubaLIFImplementation.forward: (spike, new v, new I) *)
-Definition cuba_step (dt tau_syn tau_mem r v_leak v_threshold w_in I0 v0 x : R) : bool * R * R :=
-  ((if (Rgt_dec (v0 + ((dt / tau_mem) * ((v_leak - v0) + (r * I0)))) v_threshold) then true else false), ((v0 + ((dt / tau_mem) * ((v_leak - v0) + (r * I0)))) - ((if (if (Rgt_dec (v0 + ((dt / tau_mem) * ((v_leak - v0) + (r * I0)))) v_threshold) then true else false) then 1 else 0) * v_threshold)), (I0 + ((dt / tau_syn) * ((- I0) + (w_in * x))))).
+(* translation of the paper scripts FAILED CLOSED: Unsupported: call np.maximum *)
